@@ -131,7 +131,23 @@ def run(ctx):
     for i in range(n):
         name = 'h%d' % i
         prof = c02.gen_profile(rng, name)
-        hops.append(esc_list(['hotfix']) + '\t' + lib_field + '\t' + esc('%s=%s' % (name, prof)))
+        # half of the hosts are processed after another host, in the same process, that uses the same stacked
+        # profiles / exec targets the other way round (X vs non-X, another transition): what a directive yields
+        # must not depend on what ran before
+        warm = ''
+        m = re.search(r'(?m)^  #aa:(stack|exec) (.*)$', prof)
+        if m and rng.random() < 0.5:
+            a = m.group(2).split()
+            if m.group(1) == 'stack':
+                a2 = a[1:] if a[0] == 'X' else ['X'] + a
+            else:
+                a2 = (a[1:] if a[0] in ('P', 'U', 'p', 'u', 'PU', 'pu') else a)
+                a2 = [rng.choice(['U', 'p', 'PU'])] + a2
+            wprof = c02.gen_profile(rng, 'w%d' % i)
+            wprof = re.sub(r'(?m)^  #aa:.*\n', '', wprof)
+            wprof = wprof.replace('  include if exists <local/', '  #aa:%s %s\n\n  include if exists <local/' % (m.group(1), ' '.join(a2)), 1)
+            warm = esc('w%d=%s' % (i, wprof)) + '\t'
+        hops.append(esc_list(['hotfix']) + '\t' + lib_field + '\t' + warm + esc('%s=%s' % (name, prof)))
         metas.append((name, prof))
     out = ctx.run_go('hist', hops)
     ctx.cov['evaluations'] += len(hops)
@@ -153,10 +169,10 @@ def run(ctx):
             cleaned[(k, x)] = unesc_list(cres[j][3:]) if len(cres[j]) > 3 else []
             j += 1
     for (name, prof), o in zip(metas, out):
-        if not o.startswith('ok\t') or o.split('\t')[1] == '!err':
+        if not o.startswith('ok\t') or '!err' in o.split('\t')[1:]:
             ctx.violation('directive.Run failed on a generated host', {'profile': prof, 'go': o})
             continue
-        text = unesc(o.split('\t')[1])
+        text = unesc(o.split('\t')[-1])
         if '#aa:' in text:
             ctx.violation('a directive marker survives', {'profile': prof, 'built': text})
             continue
@@ -266,7 +282,7 @@ def run(ctx):
     ctx.cov['evaluations'] += tot
     ctx.cov['rule'] = ('dbus directives with every action, three buses, optional path/interface/interface+/label in any order; hosts with '
                        'exec (all transitions, 1-2 targets) and stack (X and non-X, 1-2 stacked profiles, one of which carries its own '
-                       'dbus directive); every file of the real builds scanned for #aa:')
+                       'dbus directive), half of them processed after a host that uses the same profiles with the opposite X / another transition; every file of the real builds scanned for #aa:')
     if broken and not any(c for _, c, _ in ctx.violations):
         ctx.violation('obligation broken: ' + '; '.join(broken)[:600], {'broken': broken}, concrete=False)
     ctx.cov['broken'] += broken
